@@ -269,6 +269,46 @@ template<class T> struct Fold {
     }
 };
 
+// scalar overloads over all 2^32 values (thorough)
+template<class T, class F, class Mo>
+void scalar_sweep32(const char* type, const char* opname, F f, Mo model, bool nonneg_only) {
+    if (!begin_cell("C06", type, opname)) return;
+    Cell& c = cell();
+    unsigned bits = 32;
+    if (const char* e = std::getenv("VK_SWEEP_BITS")) bits = (unsigned)std::atoi(e);
+    const uint64_t total = 1ull << bits, stride = 1ull << (32 - bits);
+    for (uint64_t blk = 0; blk < total && c.traps < 16; blk += 65536) {
+        volatile uint64_t at = blk;
+        VK_GUARDED(0, ("a=" + hex((uint32_t)(at * stride))), {
+            for (uint64_t k = blk; k < blk + 65536 && k < total; ++k) {
+                at = k;
+                T a = (T)(uint32_t)(k * stride);
+                if (nonneg_only && std::is_signed<T>::value && a < 0) continue;
+                volatile T va = a;
+                T got = (T)f(va), exp = (T)model((uint32_t)a);
+                if (got != exp) viol("value", ucls((uint32_t)a, 32), 0, "a=" + hex(a), hex(got), hex(exp));
+            }
+        });
+        c.cases += 65536; c.lanes += 65536; c.cls_add(ucls((uint32_t)(blk * stride), 32));
+        if (c.cases <= 65536) add_sample(std::string(opname) + " scalar sweep of all 32-bit values");
+    }
+    end_cell();
+}
+#define SC_SW(NAME, MODEL, NONNEG)                                                                          \
+    template<class T> void scsw_##NAME(const char* type, std::true_type) {                                  \
+        scalar_sweep32<T>(type, #NAME "/all2^32", [](T a) { return avel::NAME(a); }, [](uint32_t x) { return FM::MODEL(x); }, NONNEG); \
+    }                                                                                                       \
+    template<class T> void scsw_##NAME(const char*, std::false_type) {}
+SC_SW(popcount, popcount, false) SC_SW(countl_zero, clz, false) SC_SW(countl_one, clo, false) SC_SW(countr_zero, ctz, false)
+SC_SW(countr_one, cto, false) SC_SW(bit_width, width, false) SC_SW(bit_floor, floor, true) SC_SW(bit_ceil, ceil, true)
+SC_SW(byteswap, bswap, false) SC_SW(countl_sign, cls, false)
+template<class T> void scalar_sweeps(const char*, std::false_type) {}
+template<class T> void scalar_sweeps(const char* type, std::true_type) {
+    if (!opt().thorough) return;
+#define SCSWR(NAME) scsw_##NAME<T>(type, hassc_##NAME<T>());
+    SCSWR(popcount) SCSWR(countl_zero) SCSWR(countl_one) SCSWR(countr_zero) SCSWR(countr_one) SCSWR(bit_width) SCSWR(bit_floor) SCSWR(bit_ceil) SCSWR(byteswap) SCSWR(countl_sign)
+}
+
 template<class T>
 void run_scalar(const char* type) {
     typedef typename std::make_unsigned<T>::type U;
@@ -286,6 +326,7 @@ void run_scalar(const char* type) {
     sc_has_single_bit<T>(type, vals, hassc_has_single_bit<T>());
     sc_byteswap<T>(type, vals, hassc_byteswap<T>());
     sc_countl_sign<T>(type, vals, hassc_countl_sign<T>());
+    scalar_sweeps<T>(type, std::integral_constant<bool, sizeof(T) == 4>());
     Fold<T>::template at<(T)0>(type);
     Fold<T>::template at<(T)1>(type);
     Fold<T>::template at<(T)-1>(type);
